@@ -19,7 +19,7 @@ def parse_tree(toks):
         return ("fail",), toks[3:]
     if k == "ret":
         assert toks[3] == ")"
-        return ("ret", int(toks[2])), toks[4:]
+        return ("ret", p_val(toks[2])), toks[4:]
     if k in ("read", "readc"):
         head = (int(toks[2]), int(toks[3])) if k == "read" else (int(toks[2]),)
         rest = toks[4:] if k == "read" else toks[3:]
@@ -32,20 +32,29 @@ def parse_tree(toks):
     if k == "write":
         t, rest = parse_tree(toks[5:])
         assert rest[0] == ")"
-        return ("write", int(toks[2]), int(toks[3]), int(toks[4]), t), rest[1:]
+        return ("write", int(toks[2]), int(toks[3]), p_val(toks[4]), t), rest[1:]
     raise ValueError(toks)
+
+
+def p_val(s):
+    """a value on a protocol line: an int or N (= None)"""
+    return None if s == "N" else int(s)
+
+
+def f_val(v):
+    return "N" if v is None else str(v)
 
 
 def fmt_tree(t):
     if t[0] == "fail":
         return "( fail )"
     if t[0] == "ret":
-        return f"( ret {t[1]} )"
+        return f"( ret {f_val(t[1])} )"
     if t[0] == "read":
         return f"( read {t[1]} {t[2]} " + " ".join(fmt_tree(b) for b in t[3]) + " )"
     if t[0] == "readc":
         return f"( readc {t[1]} " + " ".join(fmt_tree(b) for b in t[2]) + " )"
-    return f"( write {t[1]} {t[2]} {t[3]} {fmt_tree(t[4])} )"
+    return f"( write {t[1]} {t[2]} {f_val(t[3])} {fmt_tree(t[4])} )"
 
 
 def pick(bs, v):
@@ -206,7 +215,7 @@ class CompImpl:
                 v = self.inst[o].__dict__[f"_a{n}"]._value
                 head = f"ok {v}"
             elif k == "assign":
-                o, n, v = int(w[1]), int(w[2]), int(w[3])
+                o, n, v = int(w[1]), int(w[2]), p_val(w[3])
                 assert self.kind[(o, n)] == "obs"
                 setattr(self.inst[o], f"a{n}", v)
                 head = "ok 0"
@@ -256,7 +265,12 @@ def run_comp(sc):
 # values assigned to Observables: small ints (which CPython interns) and large ones (equal values are then
 # distinct objects, so an identity comparison instead of an equality comparison would show)
 def gen_val(R):
-    return R.choice([0, 1, 2, 0, 1, 2, 0, 1, 2, 1000, 1001])
+    return R.choice([0, 1, 2, 0, 1, 2, 0, 1, 2, 1000, 1001, "N"])
+
+
+def gen_ret(R):
+    """what a function returns: a small int or None (a Computable's own dirty signal carries None as new value)"""
+    return None if R.random() < 0.12 else R.randrange(0, 4)
 
 
 def gen_tree(R, depth, obs_keys, lower, allow_write, root=False, p_fail=0.0):
@@ -264,7 +278,7 @@ def gen_tree(R, depth, obs_keys, lower, allow_write, root=False, p_fail=0.0):
     if depth == 0 or (not root and k < 0.22):
         if p_fail and R.random() < p_fail:
             return ("fail",)            # the function raises along this branch
-        return ("ret", R.randrange(0, 4))
+        return ("ret", gen_ret(R))
     nb = R.choice([2, 2, 3, 3, 1])
     if allow_write and k > 0.85:
         o, n = R.choice(obs_keys)
